@@ -34,3 +34,6 @@ for o in rec['ops']:
 for v in viols:
     print('VIOL', v['rule'], v['detail'])
 shutil.rmtree(root, ignore_errors=True)
+for e in rec['execs']:
+    if e.get('trace'): print('TRACE', e['dtid'], e['k'], e['trace'])
+print('FIRED', rec['fired'])
